@@ -32,7 +32,7 @@ CAP = 20_000
 # scenario features that still lead to a *recorded* defect; everything else (overlapping windows of every other
 # kind, generator/holder targets with processes in flight, cancel before construction, contention inside a capacity
 # window) is part of the general classes since the corresponding fixes were committed (checks/c06.fixed.json)
-TRIGGERS = ("server", "capbusy", "capoverlap")
+TRIGGERS = ("server", "capbusy", "capoverlap", "qlimit")
 
 RULE = (
     "each case is a generated probe model (1-4 node targets among plain handler / generator handler with in-flight "
@@ -43,7 +43,7 @@ RULE = (
     "faults (0-10; windows disjoint, overlapping, nested, identical, adjacent, past the horizon, permanent crash; handles "
     "cancelled before construction / after construction / during the run / never) passed to Simulation(fault_schedule=); "
     "scenario classes: fault-free, general (none of the still-recorded triggers possible), only:<trigger> (exactly one of "
-    "server = queue-fronted crash target, capbusy = grants held at a capacity-window start, capoverlap = overlapping "
+    "server = queue-fronted crash target, qlimit = one-at-a-time worker behind an explicit Queue+QueueDriver as crash target, capbusy = grants held at a capacity-window start, capoverlap = overlapping "
     "ReduceCapacity windows), mixed; non-trivial = at least one repo fault event fired and at least one "
     "observation (job, grant or probe) was judged strictly inside an active window; distinct = distinct delivery digests"
 )
@@ -93,6 +93,8 @@ EXPECTED_PROBES = [
     "fault.crash", "fault.restart", "fault.pause", "fault.resume", "fault.partition.activate",
     "fault.partition.deactivate", "fault.latency.activate", "fault.latency.deactivate", "fault.loss.activate",
     "fault.loss.deactivate", "fault.capacity.reduce", "fault.capacity.restore",
+    "probe.qworker_item_arrived_during_down_window", "probe.qworker_served_after_restart",
+    "probe.net_faulted_network_registered_second",
     "fault.random_partition.fault", "fault.random_partition.heal", "probe.random_partition_cut_observed",
     "probe.random_cycle_started_inside_scheduled_partition_window",
     "probe.message_sent_while_destination_down_handled_after_restart", "probe.message_dropped_by_down_destination",
@@ -197,11 +199,13 @@ def gen(rng, tier):
 
     # ---- nodes
     kinds = ["plain"]
-    pool = ["plain", "gen", "server", "holder"]
+    pool = ["plain", "gen", "server", "holder", "qworker"]
     for _ in range(rng.randint(0, 3)):
         kinds.append(rng.choice(pool))
     if "server" in allow and "server" not in kinds:
         kinds.append("server")
+    if "qlimit" in allow and "qworker" not in kinds:
+        kinds.append("qworker")
     if ("capbusy" in allow or "capoverlap" in allow) and "holder" not in kinds:
         kinds.append("holder")
     rng.shuffle(kinds)
@@ -217,6 +221,10 @@ def gen(rng, tier):
         elif k == "server":
             n["service_us"] = int(period * rng.choice((0.3, 0.7, 0.95, 1.2, 1.5)))
             n["concurrency"] = rng.choice((1, 1, 2))
+        elif k == "qworker":
+            # explicit Queue -> QueueDriver -> worker; one-at-a-time workers only where the recorded stall is allowed
+            n["service_us"] = int(period * rng.choice((0.3, 0.7, 0.95, 1.2)))
+            n["limit"] = 1 if "qlimit" in allow and rng.random() < 0.75 else 0
         else:
             n["cap"] = rng.choice((4, 8, 10, 12))
             n["co_period_us"] = max(rng.choice((60_000, 130_000, 400_000)), end_us // 45)
@@ -250,7 +258,7 @@ def gen(rng, tier):
                     links.append({"a": a, "b": b, **p})
                     if bidir:
                         links.append({"a": b, "b": a, **p})
-        net = {"n": nn, "bidir": bidir, "delta_us": max(50_000, end_us // rng.choice((15, 20, 30))),
+        net = {"n": nn, "bidir": bidir, "twin_first": rng.random() < 0.4, "delta_us": max(50_000, end_us // rng.choice((15, 20, 30))),
                "phase_us": rng.randrange(1, 50_000), "links": links}
     sc["net"] = net
 
@@ -293,8 +301,9 @@ def gen(rng, tier):
             g = ("nnode", f["netnode"])
         elif k in ("crash", "pause"):
             pref = [i for i in node_targets if nodes[i]["kind"] == "server"] if only == "server" else \
+                [i for i in node_targets if nodes[i]["kind"] == "qworker"] if only == "qlimit" else \
                 [x["node"] for x in faults if x["kind"] in ("crash", "pause") and "node" in x]
-            f["node"] = rng.choice(pref if pref and rng.random() < (0.8 if only == "server" else 0.5) else node_targets)
+            f["node"] = rng.choice(pref if pref and rng.random() < (0.8 if only in ("server", "qlimit") else 0.5) else node_targets)
             g = ("node", f["node"])
         elif k == "capacity":
             same = [x["node"] for x in faults if x["kind"] == "capacity"]
@@ -475,6 +484,8 @@ def _bidir_probes(w: FaultWorld, c: dict) -> None:
     net = w.sc.get("net")
     if not net:
         return
+    if net.get("twin_first") and any(k[0] in ("part", "lat", "loss") for k in w.tl.w):
+        c["probe.net_faulted_network_registered_second"] = 1
     if any(l.get("factory") for l in net["links"]):
         c["probe.net_built_with_condition_factories"] = 1
     if not net.get("bidir"):
